@@ -246,7 +246,15 @@ func TestVerifX02UDP(t *testing.T) {
 			res.Violate("relay-orphan-conn", fmt.Sprintf("UDP %s: streams idle for much longer than streamTimeout (%v) were not closed by the relay", mode, streamTimeout), nil)
 		}
 		a.c.Write(x02uDgram(1, 4))
-		if !x02uWait(x02uLimit, func() bool { _, s2 := far.snapshot(); return len(s2) >= 3 }) {
+		if !x02uWait(x02uLimit, func() bool {
+			_, s2 := far.snapshot()
+			if len(s2) < 3 {
+				return false
+			}
+			far.mu.Lock()
+			defer far.mu.Unlock()
+			return len(s2[2].got) >= 1
+		}) {
 			drift("the datagram after the timeout did not arrive on a new stream")
 		}
 		made2, ss2 := far.snapshot()
